@@ -34,7 +34,7 @@ func (c03) Cases(tier string) int {
 	if tier == "thorough" {
 		return 200000
 	}
-	return 15000
+	return 30000
 }
 func (c03) RaceCases(tier string) int {
 	if tier == "thorough" {
